@@ -935,6 +935,54 @@ func c17CheckMsl(m *c17Module, mod *ir.Module, r *run.Rng) (problems []string, c
 			cov["msl.interface-attributes-checked"]++
 		}
 	}
+	// partial per-entry-point maps with FakeMissingBindings: an entry point without a map of its own gets placeholder
+	// attributes for its resources, never the slots of another entry point's map
+	if len(m.entries) >= 2 {
+		o2 := msl.DefaultOptions()
+		o2.FakeMissingBindings = true
+		o2.PerEntryPointMap = map[string]msl.EntryPointResources{}
+		mapped := map[string]bool{}
+		for i, e := range m.entries {
+			if (i == 0) != (r.Intn(4) == 0) { // usually the first entry point is the mapped one
+				mapped[e.name] = true
+				o2.PerEntryPointMap[e.name] = o.PerEntryPointMap[e.name]
+			}
+		}
+		text2, info2, err := msl.Compile(mod, o2)
+		if err != nil {
+			return append(problems, "msl: backend error with partial per-entry-point maps and FakeMissingBindings: "+oneLine(err.Error())), cov
+		}
+		for _, e := range m.entries {
+			name := e.name
+			if n, ok := info2.EntryPointNames[e.name]; ok && n != "" {
+				name = n
+			}
+			kw := map[string]string{"vertex": "vertex", "fragment": "fragment", "compute": "kernel"}[e.stage]
+			mm := regexp.MustCompile(`(?s)\b` + kw + `\s+[\w:<>]+\s+` + regexp.QuoteMeta(name) + `\s*\((.*?)\)\s*\{`).FindStringSubmatch(text2)
+			if mm == nil {
+				problems = append(problems, fmt.Sprintf("msl: entry point %s has no %s function in the output (partial maps)", e.name, kw))
+				continue
+			}
+			for _, ri := range e.uses {
+				rs := m.res[ri]
+				pm := regexp.MustCompile(`\b` + rs.name + `\w*\s*\[\[(buffer\((\d+)\)|user\(fake\d+\))\]\]`).FindStringSubmatch(mm[1])
+				switch {
+				case pm == nil:
+					problems = append(problems, fmt.Sprintf("msl: partial maps: entry point %s uses %s but has no argument for it", e.name, rs.name))
+				case mapped[e.name]:
+					if n, _ := strconv.Atoi(pm[2]); pm[2] == "" || n != want[e.name][rs.name] {
+						problems = append(problems, fmt.Sprintf("msl: partial maps: mapped entry point %s binds %s to [[%s]], its map says buffer(%d)", e.name, rs.name, pm[1], want[e.name][rs.name]))
+					}
+					cov["msl.partial-map.mapped-slots-checked"]++
+				default:
+					if pm[2] != "" {
+						problems = append(problems, fmt.Sprintf("msl: partial maps: entry point %s has no map but binds %s to [[%s]] (FakeMissingBindings prescribes a placeholder attribute)", e.name, rs.name, pm[1]))
+					}
+					cov["msl.partial-map.unmapped-slots-checked"]++
+				}
+			}
+		}
+	}
 	return problems, cov
 }
 
